@@ -85,7 +85,7 @@ CLAIMED = {
                      'orders), C07_is_prefix_antisymm (mutual prefixes have equal node counts). C07_prefix_errors_agree_partial / C07_prefix_errors_structural_partial '
                      '(Model/PrefixErrors.lean is the Python recursion of optree.prefix_errors over the two trees; for every prefix tree without registered custom nodes - leaves, None, '
                      'tuple, list, deque, dict / OrderedDict / defaultdict in either dict-order mode, unregistered namedtuple / struct-sequence classes, any nesting - and every full tree it '
-                     'reports nothing exactly when flatten_up_to of the prefix tree\'s treespec succeeds; Lemmas/PrefixErrors.lean). Partial: prefix trees containing registered custom nodes '
+                     'reports nothing exactly when flatten_up_to of the prefix tree\'s treespec succeeds, with no assumption on registry or flatten functions; Lemmas/PrefixErrors.lean); C07_prefix_errors_agree / C07_three_way (every prefix tree, registered custom nodes included, given a registry that files each registration under its own class and flatten functions returning as many entries as children in both trees: prefix_errors reports nothing <=> flatten_up_to succeeds <=> is_prefix). Outside those assumptions '
                      '(tree_flatten_one_level also validates the full tree\'s flatten function, which flatten_up_to does not) are decided by the (prefix_errors ...) correspondence lines - error kinds '
                      'with accessor paths, misbehaving flatten functions included - plus an independent reference prefix relation and a zoo of class relations in the oracle.' + PARTIAL,
                 technique='Lean 4 proof (refinement of the array walk to a tree-level relation, mutual structural induction) + correspondence + reference oracle', ref='6 C07'),
@@ -100,8 +100,8 @@ CLAIMED = {
                      'C08_normIndex_none/some (Python index semantics), C08_child_index_error, C08_entry_of_entries, C08_one_level, '
                      'C08_compose_counts, C08_compose_rejects, C08_transform_none, C08_make_leaf_none, C08_repr_affixes; C08_compose_is_structure (tree level: replacing every leaf of '
                      'an a-shaped tree by b-shaped trees gives a tree whose treespec has exactly the node array of treespec(a).compose(treespec(b)), whose leaves are '
-                     'the leaves of the grafted trees in order, and num_leaves multiply; Lemmas/Graft.lean, structural induction with dict children re-sorted under the same keys); C08_constructor_is_structure / C08_constructor_matches_flatten (for every container the engine handles itself - tuple, list, deque, dict, OrderedDict, defaultdict in either dict-order mode, unregistered namedtuple / struct-sequence classes - treespec_from_collection over the same container holding the treespecs of the children returns exactly the node array tree_structure returns for the tree: the sorting constructors included). Constructors of registered custom classes and '
-                     'transform with node functions: correspondence (5000+ lines per run) + oracle.' + PARTIAL,
+                     'the leaves of the grafted trees in order, and num_leaves multiply; Lemmas/Graft.lean, structural induction with dict children re-sorted under the same keys); C08_constructor_is_structure / C08_constructor_matches_flatten (for every container the engine handles itself - tuple, list, deque, dict, OrderedDict, defaultdict in either dict-order mode, unregistered namedtuple / struct-sequence classes - treespec_from_collection over the same container holding the treespecs of the children returns exactly the node array tree_structure returns for the tree: the sorting constructors included). C08_transform_node_refines / C08_transform_node_counts (transform with a node function: when f_node answers, for the one-level treespec of every internal node, the one-level treespec of g(node) with the same number of children, and f_leaf the treespec of b, the result is the encoding of the tree with every node rewritten by g and every leaf replaced by b; Lemmas/EncTransformNode.lean relates the run record by record to the identity-on-nodes run). Constructors of registered custom classes and '
+                     'node functions that answer something else (errors): correspondence (5000+ lines per run) + oracle.' + PARTIAL,
                 technique='Lean 4 proof + correspondence', ref='6 C08'),
     'C09': dict(text='Proved for all well-formed shapes whose payloads fit their kinds, any nesting and any dict key orders: C09_broadcast_refines - the merge walk '
                      'of BroadcastToCommonSuffixImpl over the post-order encodings (integer cursors into both arrays, children last to first, the other '
